@@ -15,14 +15,17 @@ fn show(m: &Model) -> String { format!("{{{}}}", m.iter().map(|(k, v)| format!("
 fn shows(s: &SlotMap) -> String { format!("{{{}}}", s.iter().map(|(k, v)| format!("{}->{}", k, v)).collect::<Vec<_>>().join(",")) }
 fn injective(m: &Model) -> bool { let mut vs: Vec<_> = m.values().collect(); vs.sort(); vs.dedup(); vs.len() == m.len() }
 
+fn deep() -> bool { std::env::var("VERIF_BOUNDED_DEEP").is_ok() }
 fn all_models() -> Vec<Model> {
+    // thorough tier (VERIF_BOUNDED_DEEP): maps with up to 4 entries over 5 slots (3 over 4 otherwise)
+    let (size, span) = if deep() { (4, 5) } else { (3, 4) };
     let mut out = vec![Model::new()];
     let mut frontier = vec![Model::new()];
-    for _ in 0..3 {
+    for _ in 0..size {
         let mut next = Vec::new();
         for m in &frontier {
             let lo = m.keys().next_back().map(|k| k + 1).unwrap_or(0);
-            for k in lo..4 { for v in 0..4 { let mut n = m.clone(); n.insert(k, v); next.push(n); } }
+            for k in lo..span { for v in 0..span { let mut n = m.clone(); n.insert(k, v); next.push(n); } }
         }
         out.extend(next.iter().cloned());
         frontier = next;
@@ -90,7 +93,9 @@ pub fn run(only: &[String]) -> Vec<String> {
             if !ok { fail("SlotMap::bijection_from_fresh_to", "C19:bijection_from_fresh_to", format!("set=keys of {} got {}", show(m), shows(&t))); }
         }
     }
-    for a in &models { for b in &models {
+    // binary operations: all pairs (every 7th model on each side in the thorough tier, whose model set is much larger)
+    let step = if deep() { 7 } else { 1 };
+    for a in models.iter().step_by(step) { for b in models.iter().step_by(step) {
         verif_case(format!("a={} b={} (binary operations)", show(a), show(b)));
         let (sa, sb) = (build(a), build(b));
         if want("SlotMap::compose_partial") || want("SlotMap::compose") {
